@@ -474,7 +474,7 @@ public:
         requires(is_copy_constructible_v<T>)
     {
         assert_iterator_in_range(position);
-        TETL_PRECONDITION(size() + n <= capacity());
+        TETL_PRECONDITION(n <= capacity() - size());
         auto* b = end();
         while (n != 0) {
             push_back(x);
